@@ -234,6 +234,21 @@ CLAIMED = {
         "note": TRUSTED,
         "technique": "static analysis: field / variant coverage over the ADT table and MIR place projections, who-may-construct and who-may-reference rules, constant comparison between printer and parser prefixes",
     },
+    "C15": {
+        "text": "Static flow / structure rules: every text placed into a line-oriented field of the printed transaction (payee, code, "
+                "comment, tag text, posting account, commodity) is traced from Txn::to_double_entry back through closures, helper "
+                "returns and the Txn setters' callers to its origin; configuration text (config.account, config.operator, the rule's "
+                "own account) is separated from statement text, and every statement-text flow must pass a sanitiser (a local function "
+                "inspecting line breaks) - the four flows that exist today are listed findings, each reproduced; every field of Txn "
+                "and Charge is read when the transaction is built and no printed field is left to a default except the tabled ones; "
+                "display::rescale requests max(own scale, configured precision) of the value's own clone and as_syntax_amount wraps "
+                "the importer's Decimal unchanged; ImportCmd::run prints every imported transaction in order through the display "
+                "context built from config.format.commodity and propagates to_double_entry and write errors.  Equality of the "
+                "re-read tree is not decided (value level).",
+        "design_ref": "DESIGN.md §4 C15",
+        "note": TRUSTED,
+        "technique": "static analysis: inter-procedural text-flow (taint) tracing over MIR provenance with source classification, field-coverage, operand provenance of the scale argument, loop / error-consumption rules",
+    },
 }
 
 _WIP = "check not built yet in this session (design: DESIGN.md §4); not claimed until it is"
